@@ -201,7 +201,11 @@ static void buildPA(const std::string& pts, const std::string& subs, Points& P, 
     const bool byIdx = ((pts.size() * 7 + subs.size()) % 3) == 0;
     std::vector<std::string> pl = splitList(pts, ';');
     if (!byIdx) for (size_t i = 0; i < pl.size(); ++i) P.point(parsePoint(pl[i]));
-    else for (size_t i = pl.size(); i-- > 0; ) P.point(parsePoint(pl[i]), i);
+    else for (size_t i = pl.size(); i-- > 0; ) {
+        Point decoy; decoy.name("decoy"); decoy.x(9.f); decoy.residual(-1.f);
+        P.point(decoy, i);                 // something else sits at the position first: the indexed setter must REPLACE it
+        P.point(parsePoint(pl[i]), i);
+    }
     std::vector<std::string> sl = splitList(subs, '|');
     std::vector<SubFrame> sfs;
     for (size_t k = 0; k < sl.size(); ++k) {
@@ -214,12 +218,19 @@ static void buildPA(const std::string& pts, const std::string& subs, Points& P, 
                 Channel c; c.name(unx(t[0])); c.data(unhex8(t[1])); cs.push_back(c);
             }
             if (!byIdx) for (size_t i = 0; i < cs.size(); ++i) sf.channel(cs[i]);
-            else for (size_t i = cs.size(); i-- > 0; ) sf.channel(cs[i], i);
+            else for (size_t i = cs.size(); i-- > 0; ) {
+                Channel decoy; decoy.name("decoy"); decoy.data(9.f);
+                sf.channel(decoy, i); sf.channel(cs[i], i);
+            }
         }
         sfs.push_back(sf);
     }
     if (!byIdx) for (size_t k = 0; k < sfs.size(); ++k) A.subframe(sfs[k]);
-    else for (size_t k = sfs.size(); k-- > 0; ) A.subframe(sfs[k], k);
+    else for (size_t k = sfs.size(); k-- > 0; ) {
+        SubFrame decoy = sfs[k];           // a sub-frame with two channels MORE sits at the position first
+        Channel extra; extra.name("decoy"); extra.data(9.f); decoy.channel(extra); decoy.channel(extra);
+        A.subframe(decoy, k); A.subframe(sfs[k], k);
+    }
 }
 
 static Frame makeFrame(const std::string& pts, const std::string& subs) {
@@ -264,6 +275,7 @@ static int runScript(const char* scriptPath, const char* outPath, int tid) {
     std::unique_ptr<Open> cur;
     std::map<std::string, Frame> vars;
     Parameter pk("P", "");     // the parameter the pset ops work on (kept across ops; pnew starts a fresh one)
+    ParametersNS::Parameters sp; Group sg;      // stand-alone parameter classes (ops `sa ...`)
     std::string line; size_t n = 0;
     while (std::getline(in, line)) {
         ++n;
@@ -292,6 +304,41 @@ static int runScript(const char* scriptPath, const char* outPath, int tid) {
             if (t[2] == "pt") { size_t i = std::strtoull(t[3].c_str(), 0, 10); Point& p = f.points_nonConst().point_nonConst(i); p.x(unhex8(t[4])); p.y(unhex8(t[5])); p.z(unhex8(t[6])); p.residual(unhex8(t[7])); }
             else if (t[2] == "addpt") { f.points_nonConst().point(parsePoint(t[3])); }
             else if (t[2] == "ch") { size_t k = std::strtoull(t[3].c_str(), 0, 10), i = std::strtoull(t[4].c_str(), 0, 10); f.analogs_nonConst().subframe_nonConst(k).channel_nonConst(i).data(unhex8(t[5])); }
+            continue;
+        }
+        else if (op == "sa") {        // the parameter classes used on their own (not reachable through a c3d object)
+            auto dumpG = [&](const char* tag, size_t gi, const Group& G) {
+                std::fprintf(out, "%sG %zu %s %s %s %zu\n", tag, gi, xhex(G.name()).c_str(), xhex(G.description()).c_str(), G.isLocked() ? "1" : "0", G.nbParameters());
+                for (size_t p = 0; p < G.nbParameters(); ++p) std::fprintf(out, "%sP %zu %zu %s\n", tag, gi, p, paramLine(G.parameter(p)).c_str());
+            };
+            auto dumpSP = [&]() { for (size_t g = 0; g < sp.nbGroups(); ++g) dumpG("X", g, sp.group(g)); };
+            std::string r = "ok";
+            if (t[1] == "pnew") { sp = ParametersNS::Parameters(); std::fprintf(out, "R ok\n"); dumpSP(); }
+            else if (t[1] == "gnew") {       // constructor arguments or the setters, by parity
+                if ((t[2].size() / 2 + t[3].size() / 2) % 2 == 1) { sg = Group(); sg.name(unx(t[2])); sg.description(unx(t[3])); }
+                else sg = Group(unx(t[2]), unx(t[3]));
+                if (t.size() > 4 && t[4] == "1") sg.lock();
+                std::fprintf(out, "R ok\n"); dumpG("Y", 0, sg);
+            }
+            else if (t[1] == "gparam") {     // sa gparam <name> <desc> <lock> <type|N> <dims> <vals>
+                Parameter p(unx(t[2]), unx(t[3])); std::string sres = "ok";
+                if (t[5] != "N" && !setParam(p, t[5], t[6], t[7], sres)) { std::fprintf(out, "R set %s\n", sres.c_str()); continue; }
+                if (t[4] == "1") p.lock();
+                r = classify([&]() { sg.parameter(p); });
+                std::fprintf(out, "R %s\n", r.c_str()); dumpG("Y", 0, sg);
+            }
+            else if (t[1] == "gparamnc") {   // look-up through the non-const accessor of the stand-alone group
+                size_t i = std::strtoull(t[2].c_str(), 0, 10);
+                std::string v; r = classify([&]() { v = paramLine(sg.parameter_nonConst(i)); });
+                if (r == "ok") std::fprintf(out, "V %s\n", v.c_str()); else std::fprintf(out, "T %s\n", r.c_str() + 6);
+            }
+            else if (t[1] == "pgroup") { r = classify([&]() { sp.group(sg); }); std::fprintf(out, "R %s\n", r.c_str()); dumpSP(); }
+            else if (t[1] == "pgroupnc") {
+                size_t i = std::strtoull(t[2].c_str(), 0, 10);
+                std::string v; r = classify([&]() { const Group& G = sp.group_nonConst(i); v = xhex(G.name()) + " " + std::to_string(G.nbParameters()); });
+                if (r == "ok") std::fprintf(out, "V %s\n", v.c_str()); else std::fprintf(out, "T %s\n", r.c_str() + 6);
+            }
+            else std::fprintf(out, "R badop\n");
             continue;
         }
         else if (!cur) { std::fprintf(out, "R nostate\n"); continue; }
@@ -381,6 +428,13 @@ static int runScript(const char* scriptPath, const char* outPath, int tid) {
             }
             std::fprintf(out, "V sep %s\n", bad.empty() ? "ok" : ("shared " + bad).c_str());
             continue;
+        }
+        else if (op == "pload") {    // pload <group> <param>: the caller takes a COPY of a stored parameter (to edit it and hand it back)
+            std::string r = classify([&]() { pk = static_cast<const ezc3d::c3d&>(*cur).parameters().group(unx(t[1])).parameter(unx(t[2])); });
+            std::fprintf(out, "R %s\n", r.c_str()); std::fprintf(out, "PS %s\n", paramLine(pk).c_str()); continue;
+        }
+        else if (op == "pput") {     // pput <group>: hand the kept parameter to the object
+            res = classify([&]() { cur->parameter(unx(t[1]), pk); });
         }
         else if (op == "pnew") { pk = Parameter("P", ""); std::fprintf(out, "R ok\n"); std::fprintf(out, "PS %s\n", paramLine(pk).c_str()); continue; }
         else if (op == "pset") {
